@@ -27,17 +27,21 @@ def split_cells(s):
 class C02(verif.Spec):
     prop = "C02"
     comp = "fmt"
-    lean_modules = ["ZvbiModel.Props.C02"]
+    lean_modules = ["ZvbiModel.Props.C02", "ZvbiModel.Props.C02Roundtrip"]
     harness = "fmt_harness"
     harness_link_lib = True
     timeout_per_case = 10.0
     partial_note = ("format_refines_L1Spec is proved for every page, subset and cell against L1Spec with libzvbi's "
                     "held-mosaic reading; against the standard's reset rule it is proved under the hypothesis that no "
                     "held mosaic survives a mode/size change (counterexample proved and replayed: known finding F37). "
-                    "page_roundtrip (packet assembly + cache + format) is an open statement covered by the network oracle; "
+                    "page_roundtrip is proved for one magazine stream in parallel mode from any decoder state "
+                    "(Props/C02Roundtrip: single_page_roundtrip, page_roundtrip_parallel); interleaved magazines and serial mode "
+                    "are open statements covered by the network oracle; "
                     "Level 2.5/3.5 enhancement, X/26, TOP navigation, zap_links are not modelled.")
     open_statements = ["Zvbi.Props.C02.format_refines_L1Spec_full (false on the unchanged tree: see ..._counterexample)",
-                       "Zvbi.Props.C02.page_roundtrip_full (needs positive lemmas about Ttx.processHeader / sameHeader / storeLop / cachePut that C03 does not have yet; see NOTES/C02.md)"]
+                       "Zvbi.Props.C02.page_roundtrip_full (a chain of transmissions from a fresh decoder: follows from C02Roundtrip.single_page_roundtrip by induction over the pages once the shape invariant lopRaw.length = 26 and the consistent-header => no Event.chsw step are added; see NOTES/C02.md)",
+                       "Zvbi.Props.C02Roundtrip.interleaved_page_roundtrip_full (needs magazine_isolation, which holds only outside four exception classes E1-E4; see NOTES/C02.md)",
+                       "Zvbi.Props.C02Roundtrip.page_roundtrip_serial_full (serial mode: termination by a header of any magazine)"]
     assumptions = ["consistent page header across the network (header columns 8-31 equal except the page number)",
                    "regular frame timestamps (40 ms)", "no X/26, X/28, M/29 packets; no MOT/MIP/TOP pages",
                    "page numbers decimal 100-899, subpages 00-79"]
@@ -115,6 +119,9 @@ class C02(verif.Spec):
         carousel = style == "carousel"
         serial = 1 if rng.random() < (0.7 if carousel else 0.45) else 0
         nmag = rng.choice([2, 2, 3, 4]) if carousel else rng.choice([1, 2, 2, 3, 4, 8])
+        single = style == "single"     # the schedule shape of C02Roundtrip.single_page_roundtrip: one magazine, parallel
+        if single:                     # mode, two pages alternating (so a previous version is cached), erase flag on/off,
+            serial, nmag = 0, 1        # rows permuted / omitted / sent twice
         mags = rng.sample(range(8), nmag)            # 0 = magazine 8
         region = rng.choice([0, 0, 8, 16, 32, 36, rng.randrange(88)])
         letters = [rng.choice(b"ABCDEFGHIJKLMNOPQRSTUVWXYZ abcdefghijklmnopqrstuvwxyz") for _ in range(24)]
@@ -125,9 +132,9 @@ class C02(verif.Spec):
         decimal = [a * 16 + b for a in range(10) for b in range(10)]
         shared = rng.sample(decimal, rng.choice([2, 2, 3]))
         for m in mags:
-            pages = shared if carousel else rng.sample(decimal, rng.choice([2, 3, 4]))
+            pages = shared if carousel else rng.sample(decimal, 2 if single else rng.choice([2, 3, 4]))
             pools[m] = [(pg, rng.choice([0, 0, 0, 0, 2] if carousel else [0, 0, 3]), rng.randrange(8)) for pg in pages]   # (page, nsub, national)
-        c4p = rng.choice([0.0, 0.1, 0.2]) if carousel else 0.3
+        c4p = rng.choice([0.0, 0.1, 0.2]) if carousel else (0.5 if single else 0.3)
         def make_tx(m, last_page, want=None):
             cand = [x for x in pools[m] if x[0] != last_page and (want is None or x[0] == want)]
             page, nsub, nat = rng.choice(cand)
@@ -152,7 +159,7 @@ class C02(verif.Spec):
             elif k < 0.5: which = list(range(1, 25))
             elif k < 0.6: which = list(range(1, 24))
             else: which = [r for r in range(1, 25) if rng.random() < 0.6]
-            rng.shuffle(which) if rng.random() < 0.5 else None
+            rng.shuffle(which) if rng.random() < (0.9 if single else 0.5) else None
             rows = {r: [F.par(c) for c in allrows[r]] for r in which}
             x27 = None
             if rng.random() < 0.5:
@@ -188,7 +195,7 @@ class C02(verif.Spec):
                     streams[m].append(t)
                     plan.append(m)
         else:
-            ntx = {m: rng.randrange(2, 6 if tier == "quick" else 9) for m in mags}
+            ntx = {m: (rng.randrange(4, 8) if single else rng.randrange(2, 6 if tier == "quick" else 9)) for m in mags}
             for m in mags:
                 last = None
                 for _ in range(ntx[m]):
@@ -201,6 +208,11 @@ class C02(verif.Spec):
             body = [("row", t, r) for r in t.row_order]
             if t.x27 is not None:
                 body.insert(rng.randrange(len(body) + 1), ("x27", t))
+            if single and t.row_order and rng.random() < 0.6:
+                # a row sent twice: the later packet wins (mergeRows); the earlier one carries other bytes
+                r = rng.choice(t.row_order)
+                at = next(i for i, x in enumerate(body) if x[0] == "row" and x[2] == r)
+                body.insert(rng.randrange(at + 1), ("rowdup", t, r))
             return u + body
         order = []      # sequence of units across magazines
         if serial:
@@ -251,6 +263,9 @@ class C02(verif.Spec):
             elif u[0] == "row":
                 t, r = u[1], u[2]
                 lines.append("pkt " + F.hx(F.row_packet(t.mag, r, t.rows[r])))
+            elif u[0] == "rowdup":
+                t, r = u[1], u[2]
+                lines.append("pkt " + F.hx(F.row_packet(t.mag, r, list(reversed(t.rows[r])))))
             elif u[0] == "x27":
                 t = u[1]
                 lines.append("pkt " + F.hx(F.x27_packet(t.mag, t.x27[0], t.x27[1])))
@@ -307,6 +322,10 @@ class C02(verif.Spec):
             need += nd
         for _ in range(30 if quick else 300):
             lines, nd = self.gen_net(rng, tier, "carousel")
+            cases.append(lines)
+            need += nd
+        for _ in range(20 if quick else 150):
+            lines, nd = self.gen_net(rng, tier, "single")
             cases.append(lines)
             need += nd
         # 4. malformed op lines
